@@ -21,7 +21,7 @@ import re
 from .. import common, project, tlc
 
 # switch constants of DosSeq describing the code as it currently is (see DESIGN.md section 3.2)
-LIST_PINNED = True
+LIST_PINNED = False
 
 UNIVERSE = ['k1', 'k2', 'k3', 'k4', 'k5', 'k6', 'k7', 'k8', 'k9']  # k9 is never stored
 MODES = ['NO', 'YES', 'KEEP', 'AUTO']
@@ -148,6 +148,8 @@ class Runner:
         self.table = table
         self.full = full
         self.hash = cfg['hash']
+        self.handles = {}
+        self.current = 'h1'
         self.handle = Container(self.folder)
         self.handle.init_container(pack_size_target=cfg['target'], loose_prefix_len=cfg['prefix'], hash_type=cfg['hash'],
                                    compression_algorithm=f"zlib+{cfg['zlevel']}")
@@ -155,6 +157,17 @@ class Runner:
         self.norepack = True
         self.key_of = {name: hashlib.new(self.hash, data).hexdigest() for name, data in full.table.items()}
         self.name_of = {v: k for k, v in self.key_of.items()}
+
+    # -- handles ---------------------------------------------------------------------------------
+    @property
+    def handle(self):
+        if self.current not in self.handles:
+            self.handles[self.current] = self.Container(self.folder)
+        return self.handles[self.current]
+
+    @handle.setter
+    def handle(self, value):
+        self.handles[self.current] = value
 
     # -- helpers ---------------------------------------------------------------------------------
     def source(self, index, step=None):
@@ -197,6 +210,7 @@ class Runner:
         from disk_objectstore import CompressMode  # pylint: disable=import-outside-toplevel
         from disk_objectstore.utils import LazyOpener  # pylint: disable=import-outside-toplevel
 
+        self.current = step.get('h', 'h1')
         cont = self.handle
         name = step['name']
         data = lambda k: self.full[k]  # noqa
@@ -280,6 +294,12 @@ class Runner:
                 for key, value in got.items():
                     nm = self.name_of.get(key, '?')
                     res.append(nm if value == self.full.table.get(nm) else f'WRONG:{nm}')
+                return sorted(res), ''
+            if name == 'meta':
+                res = []
+                for key, meta in cont.get_objects_meta([self.key_of[k] for k in step['keys']], skip_if_missing=True):
+                    nm = self.name_of.get(key, '?')
+                    res.append(nm if meta.size == len(self.full[nm]) else f'WRONG:{nm}')
                 return sorted(res), ''
             if name == 'list':
                 return self.names(list(cont.list_all_objects())), ''
@@ -405,7 +425,8 @@ class Runner:
             line, blobs, rows = self.observe(blobs, rows)
             line['op'] = self.op_record(step, res, raised)
             lines.append(line)
-        self.handle.close()
+        for cont in self.handles.values():
+            cont.close()
         closed_fds = fd_census(self.folder, include_index=True)
         for cont, _h, _f in self.sources.values():
             cont.close()
@@ -435,6 +456,7 @@ INVARIANTS = {
     'C12': ['C12_ValidateClean'],
     'C13': ['C13_AppendOnly', 'C13_Numbering', 'C13_OnlyLastGrows'],
     'C18': ['C18_NoFdLeak'],
+    'C08': ['C08_HandleViews'],
 }
 INV_TO_PROP = {inv: prop for prop, invs in INVARIANTS.items() for inv in invs}
 
@@ -482,13 +504,14 @@ def parse_violations(output):
 
 
 def run_histories(report: common.Report, profile: str, count: int, length: int, props, extra_histories=(),
-                  sim=None, conform=True):
+                  sim=None, conform=True, generator=None, handles=('h1',)):
     """Generate + execute + monitor.  ``props`` are the property ids whose invariants decide the verdict."""
     common.import_lib()
     rng = common.rng('seq', profile)
     jobs = []
     for tid in range(1, count + 1):
-        jobs.append((tid, random_config(rng, profile), random_history(rng, profile, length)))
+        steps = generator(rng, length) if generator else random_history(rng, profile, length)
+        jobs.append((tid, random_config(rng, profile), steps))
     for extra in extra_histories:
         jobs.append((len(jobs) + 1, extra[0], extra[1]))
     # spec -> code: behaviours of the design model generated by TLC, replayed on the real library
@@ -549,7 +572,7 @@ def run_histories(report: common.Report, profile: str, count: int, length: int, 
     report.set('invariants_checked', invariants)
     report.set('histories_from_tlc_simulation', n_sim)
     if conform:
-        conformance(report, traces, list_pinned=LIST_PINNED)
+        conformance(report, traces, handles=handles, list_pinned=LIST_PINNED)
     report.sample({'cfg': traces[0]['cfg'], 'steps': traces[0]['steps']})
     report.sample({'line': {k: v for k, v in traces[0]['lines'][min(3, len(traces[0]['lines']) - 1)].items()}})
     return traces
